@@ -69,6 +69,16 @@ def uaddr(ip, port):
     return (pkt.ip_s(ip) + ".%d.%d" % (port >> 8, port & 255)).encode()
 
 
+def uaddr_is(s, ip, port):
+    """Does the universal address string s denote (ip, port)?  Compared by value: an IPv6 address has several
+    textual forms (::1.2.3.4 / ::102:304)."""
+    try:
+        host, hi, lo = s.decode("ascii").rsplit(".", 2)
+        return pkt.ip(host) == ip and int(hi) == port >> 8 and int(lo) == port & 255 and hi.isdigit() and lo.isdigit()
+    except Exception:
+        return False
+
+
 def expected_accept(c):
     """(accept_stat, kind) by the precedence of the property statement."""
     if not 2 <= c["vers"] <= 4:
@@ -130,7 +140,7 @@ def check_reply(rep, c, dst_ip, dst_port, tcp):
                 errs.append("getport advertises port %d, client contacted %d" % (p, dst_port))
         elif kind == "getaddr":
             s = x.string()
-            if s != uaddr(dst_ip, dst_port):
+            if not uaddr_is(s, dst_ip, dst_port):
                 errs.append("getaddr advertises %r, client contacted %r" % (s, uaddr(dst_ip, dst_port)))
         elif kind == "dump":
             n = 0
@@ -151,7 +161,7 @@ def check_reply(rep, c, dst_ip, dst_port, tcp):
                         errs.append("dump entry protocol %d" % prot)
                 else:
                     netid, addr, owner = x.string(), x.string(), x.string()
-                    if addr != uaddr(dst_ip, dst_port):
+                    if not uaddr_is(addr, dst_ip, dst_port):
                         errs.append("dump entry advertises %r, client contacted %r" % (addr, uaddr(dst_ip, dst_port)))
                     if netid.endswith(b"6") != v6 or netid.rstrip(b"6") not in (b"tcp", b"udp"):
                         errs.append("dump entry netid %r does not match IPv%d" % (netid, 6 if v6 else 4))
